@@ -229,10 +229,10 @@ namespace GeographicLib {
       deltaY *= f;
       deltaZ *= f;
       if (correct) {
-        invR = _gGMmodel * _dzonal0 * invR * invR * invR;
-        deltaX += X * invR;
-        deltaY += Y * invR;
-        deltaZ += Z * invR;
+        real r3 = _gGMmodel * _dzonal0 * invR * invR * invR;
+        deltaX += X * r3;
+        deltaY += Y * r3;
+        deltaZ += Z * r3;
       }
     } else
       T = _disturbing(-1, X, Y, Z);
